@@ -68,6 +68,9 @@ func DeserializeEncrypted(data, authKey []byte) (*Encrypted, error) {
 	if !bytes.Equal(keyHash, utils.AuthKeyHash(authKey)) {
 		return nil, errors.New("wrong encryption key")
 	}
+	if len(data) < tl.LongLen+tl.Int128Len {
+		return nil, fmt.Errorf("packet is too short: have %v bytes, want at least %v", len(data), tl.LongLen+tl.Int128Len)
+	}
 	msg.MsgKey = d.PopRawBytes(tl.Int128Len) // msgKey это хэш от расшифрованного набора байт, последние 16 символов
 	encryptedData := d.PopRawBytes(len(data) - (tl.LongLen + tl.Int128Len))
 
@@ -86,7 +89,7 @@ func DeserializeEncrypted(data, authKey []byte) (*Encrypted, error) {
 	msg.SeqNo = d.PopInt()
 	messageLen := d.PopInt()
 
-	if len(decrypted) < int(messageLen)-(tl.LongLen+tl.LongLen+tl.LongLen+tl.WordLen+tl.WordLen) {
+	if messageLen < 0 || len(decrypted) < int(messageLen)+(tl.LongLen+tl.LongLen+tl.LongLen+tl.WordLen+tl.WordLen) {
 		return nil, fmt.Errorf("message is smaller than it's defining: have %v, but messageLen is %v", len(decrypted), messageLen)
 	}
 
